@@ -513,9 +513,16 @@ pub fn run(a: &Args) {
                                     let (name, val) = msg.groups[0].attrs[which].clone();
                                     let how = ci / 4 % 3;
                                     let others: Vec<(String, AV)> = msg.groups[0].attrs.iter().filter(|(n, _)| *n != name).cloned().collect();
+                                    let all: Vec<(String, AV)> = msg.groups[0].attrs.clone();
                                     let m0 = msg.clone();
                                     if let Ok(again) = catch_unwind(AssertUnwindSafe(move || {
                                         let mut req = m0.to_ipp();
+                                        let t = DelimiterTag::from_u8(tag).unwrap();
+                                        // the group is emptied and every attribute of it goes through add() (same names, same values)
+                                        req.attributes_mut().groups_mut()[0].attributes_mut().clear();
+                                        for (n, v) in &all {
+                                            req.attributes_mut().add(t, IppAttribute::new(n, v.to_ipp()));
+                                        }
                                         let _ = req.to_bytes();
                                         {
                                             let g = &mut req.attributes_mut().groups_mut()[0];
@@ -527,7 +534,6 @@ pub fn run(a: &Args) {
                                                 _ => g.attributes_mut().clear(),
                                             }
                                         }
-                                        let t = DelimiterTag::from_u8(tag).unwrap();
                                         if how == 2 {
                                             for (n, v) in &others {
                                                 req.attributes_mut().add(t, IppAttribute::new(n, v.to_ipp()));
